@@ -22,7 +22,8 @@ DATA_POOL = {
     "tie": [0.125, 1.005, 2.5, "0.125", 0.5, 1.5, -0.125],     # exact ties at the usual formatting precisions
     "n": [1, 2, 5],
     "s": ["hello world", "Hello", "a,b,c", "", "  padded  ", "x<y & \"z\"", "ünï cødé", "1", "3.5", "now", "today"],
-    "t": ["<b>bold & \"q\"</b>", "<script>alert(1)</script>", "plain", "line1\nline2"],
+    "t": ["<b>bold & \"q\"</b>", "<script>alert(1)</script>", "plain", "line1\nline2",
+          "intro <script>var cut = '<b>';", "a</style>b <i>c</i>", "<style>p{}</style><p>x</p><script>"],
     "e": ["", "  "],
     "z": [None],
     "flag": [True, False],
